@@ -2,6 +2,7 @@ import FastgoModel.Proofs.WriterStream
 import FastgoModel.Proofs.SoundInstance
 import FastgoModel.Writer.Example
 import FastgoModel.Proofs.HuffInstance
+import FastgoModel.Proofs.WriterWrap
 /-!
 # C10 — after Flush, all data written so far decodes from the bytes emitted so far
 
@@ -26,11 +27,20 @@ Close theorem starts from (so later flush points and the final Close — C01 —
 of huffmanonly.go under writer.go's Write loop, tied by the `H` correspondence), under the block encoder's
 contract `HSound` (one block that the specification inflater decodes to the buffered bytes).
 
+`C10_flush_point_zlib`, `C10_flush_point_gzip`: the same for the container Writers. The control models of
+compress/zlib/writer.go and compress/gzip/gzip.go (`Container/WriterWrap.lean`: header written lazily by whichever
+call comes first, sticky error, closed flag, running checksum, trailer; tied by the `ZW` / `GW` correspondences,
+which also compare the header and trailer bytes) sit on top of ANY inner Writer that meets the stream contract
+`InnerStream` — `dynStream` and `huffStream` prove that the dynamic and the Huffman-only Writer models meet it
+(under `Sound` / `HSound`). After a successful Flush the destination holds exactly the container header followed by
+DEFLATE bytes that the specification inflater decodes to all the data written so far, asking for more at a block
+boundary.
+
 Not covered by these theorems (decided by the oracle of the Go harness at every acceleration level, see
 evidence): that lz77*.go/.s, encode*.go/.s and huffmanonly*.go/.s meet `Sound` / `HSound` (the theorems assume
 it; `fixSound` / `fixHSound` show the contracts satisfiable by complete executable instances; `G` checks every
-recorded match-finder call), the levels delegated to compress/flate, and the gzip/zlib framing around the DEFLATE
-bytes.
+recorded match-finder call), the levels delegated to compress/flate, preset dictionaries (delegated; F-C01-1) and the Latin-1 / time
+conversions of the gzip header.
 -/
 namespace Fastgo.Writer
 open Fastgo.Spec
@@ -65,6 +75,25 @@ theorem C10_flush_point_huff {σ : Type} (L : HuffLeaf σ) {mode : Mode} (S : HS
   obtain ⟨f1, _, f3, n, hch⟩ := hFlush_tracks L S _ _ ht
   obtain ⟨st, hinf⟩ := inflate_of_chain _ hch
   exact ⟨f1, f3, st, hinf⟩
+
+open Fastgo.Container Fastgo.CWriter in
+theorem C10_flush_point_zlib {ι : Type} (O : InnerOps ι) {mode : Mode} (C : InnerStream O mode) (i : ι) (level : Int)
+    (hf : C.Fresh i) (hh : (O.dst i).Healthy) (hg : (O.dst i).got = []) (ops : List Op)
+    (ha : allAccepted ops (zRun O (ZW.init i level) ops).2) :
+    (zFlush O (zRun O (ZW.init i level) ops).1).2.err = none ∧
+    ∃ bodyBytes st, (O.dst (zFlush O (zRun O (ZW.init i level) ops).1).1.inner).bytes = emitZHeader level none ++ bodyBytes ∧
+      inflate mode [] bodyBytes = .needMore (dataOf [] ops).toArray [] st true :=
+  zlib_flush_point O C i level hf hh hg ops ha
+
+open Fastgo.Container Fastgo.CWriter in
+theorem C10_flush_point_gzip {ι : Type} (O : InnerOps ι) {mode : Mode} (C : InnerStream O mode) (i : ι) (level : Int)
+    (h : GzHeader) (hf : C.Fresh i) (hh : (O.dst i).Healthy) (hg : (O.dst i).got = []) (ops : List Op)
+    (ha : allAccepted ops (gRun O (GW.init i level h) ops).2) :
+    (gFlush O (gRun O (GW.init i level h) ops).1).2.err = none ∧
+    ∃ bodyBytes st, (O.dst (gFlush O (gRun O (GW.init i level h) ops).1).1.inner).bytes =
+        emitHeader (hdrOf h ops) level ++ bodyBytes ∧
+      inflate mode [] bodyBytes = .needMore (dataOf [] ops).toArray [] st true :=
+  gzip_flush_point O C i level h hf hh hg ops ha
 
 /-- every flush point of a longer history: the prefix of operations up to any Flush satisfies `C10_flush_point`,
     because `run` of a prefix is a prefix of the run (operations are executed left to right) -/
@@ -114,6 +143,19 @@ example :
     isNeedMoreWith (inflate .strict [] (hFlush fixHuff exHuff.1).1.dst.bytes) (exData.take 37) = true := by
   decide +kernel
 
+/-- zlib Writer model over the dynamic Writer model with the sound leaves `fixLeaves` (level 1, window 8): Flush first
+    (writes the header), Write 12, Flush: all calls accepted; the destination holds 78 01 + a DEFLATE prefix that
+    the specification inflater decodes to the 12 bytes -/
+def exZ := Fastgo.CWriter.zRun (Fastgo.CWriter.dynOps fixLeaves toyCfg)
+  (Fastgo.CWriter.ZW.init (WState.init fixLeaves healthy) 1) [.flush, .write (exData.take 12)]
+
+example :
+    exZ.2 = [{}, { n := 12 }] ∧
+    ((Fastgo.CWriter.zFlush (Fastgo.CWriter.dynOps fixLeaves toyCfg) exZ.1).1.inner.dst.bytes.take 2 = [0x78, 0x01]) ∧
+    isNeedMoreWith (inflate .strict [] ((Fastgo.CWriter.zFlush (Fastgo.CWriter.dynOps fixLeaves toyCfg) exZ.1).1.inner.dst.bytes.drop 2))
+      (exData.take 12) = true := by
+  decide +kernel
+
 end Fastgo.Writer
 
 #print axioms Fastgo.Writer.C10_flush_point
@@ -121,3 +163,7 @@ end Fastgo.Writer
 #print axioms Fastgo.Writer.fixSound
 #print axioms Fastgo.Writer.C10_flush_point_huff
 #print axioms Fastgo.Writer.fixHSound
+#print axioms Fastgo.Writer.C10_flush_point_zlib
+#print axioms Fastgo.Writer.C10_flush_point_gzip
+#print axioms Fastgo.CWriter.dynStream
+#print axioms Fastgo.CWriter.huffStream
